@@ -18,7 +18,7 @@ def run(ctx):
     ctx.model_check(mc, workers=8, timeout=2400)
     rng = random.Random(ctx.seed)
     hists = []
-    g2 = ctx.instance("G2_C37", "BackupImpl", GEN_W, dict(base, Keys={1, 2, 3} if ctx.thorough else {1, 2}, Datas={"a", "L"},
+    g2 = ctx.instance("G2_C37", "BackupImpl", GEN_W, dict(base, Keys={1, 2, 3} if ctx.thorough else {1, 2}, Datas={"a", "c", "L"},
                                                            MaxOps=6 if ctx.thorough else 5))
     h = [x for x in ctx.generate(g2, workers=4, timeout=1800) if x[-1]["ev"] == "backup"]
     if not ctx.thorough:
@@ -30,7 +30,7 @@ def run(ctx):
     if not ctx.thorough:
         hd = rng.sample(hd, min(len(hd), 60))
     hists += hd
-    g3 = ctx.instance("G3_C37", "BackupImpl", GEN_ALL, dict(base, Keys={1, 2, 3}, Datas={"a", "b", "L"}, MaxOps=12))
+    g3 = ctx.instance("G3_C37", "BackupImpl", GEN_ALL, dict(base, Keys={1, 2, 3}, Datas={"a", "b", "c", "L"}, MaxOps=12))
     hists += [x + [{"ev": "backup"}] for x in ctx.generate(g3, simulate=400 if ctx.thorough else 50, depth=13)]
     script = os.path.join(ctx.out, "script.ndjson")
     if ctx.replay:
@@ -55,7 +55,7 @@ def run(ctx):
                     return m
         return None
 
-    ctx.judge("BackupTrace", trace, "trace_base.cfg", {"Keys": {1, 2, 3}, "Datas": {"a", "b", "L"}, "MaxOps": 0, "BKF": kf},
+    ctx.judge("BackupTrace", trace, "trace_base.cfg", {"Keys": {1, 2, 3}, "Datas": {"a", "b", "c", "L"}, "MaxOps": 0, "BKF": kf},
               mutate=mutate, nontrivial=lambda ls: sum(1 for s in ls if '"ev":"backup"' in s) >= 2 or
               (any('"ev":"compact"' in s for s in ls) and any('"ev":"backup"' in s for s in ls)))
     ctx.rule = ("executions = TLC-generated histories of BackupImpl.tla over 2-3 keys (write, delete, source compaction, backup) "
@@ -64,6 +64,7 @@ def run(ctx):
                 "`weed backup` procedure against it; every key is read on the source after every step and on the backup (real "
                 "Store on the backup directory) after every backup; non-trivial = >= 2 backups or a compaction followed by a backup")
     ctx.exhaustive = ctx.thorough
-    ctx.assumptions += ["one cookie, non-empty payloads without metadata (the C01 findings are avoided)",
+    ctx.assumptions += ["payload tokens a and c have the same length (an overwrite that changes content but not size), b and L differ",
+                        "one cookie, non-empty payloads without metadata (the C01 findings are avoided)",
                         "append times are real wall-clock nanoseconds; the model's logical clock only orders them",
                         "record sizes in the model (a: 7, b: 9, L: 86, tombstone: 4 units of 8 bytes) are those of the driver's payloads"]
